@@ -35,6 +35,20 @@ def run(ctx: Ctx) -> Result:
         if (back.delegate_pubkey, back.begin_ts, back.end_ts, back.can_further_delegate, back.signature) != (dk, b, e, may, sig) or len(packed) != 105:
             B.viol('Certificate round trip', {'delegate': dk.hex(), 'begin': b, 'end': e, 'may': may}, (b, e, may), (back.begin_ts, back.end_ts, back.can_further_delegate, len(packed)))
         B.build(f'BUILD2 cert_pack {dk.hex()} {b} {e} {1 if may else 0} {sig.hex()}', packed.hex())
+        if it % 4 == 0:
+            # history on one certificate object: after it was serialised (or signed) once, a field is assigned - what is packed next
+            # is the certificate as it is NOW
+            try:
+                _ = c.preimage()
+                field_ = ['end_ts', 'begin_ts', 'can_further_delegate', 'delegate_pubkey'][(it // 4) % 4]
+                newv = {'end_ts': (e + 7) % 2**31, 'begin_ts': (b + 3) % 2**31, 'can_further_delegate': not may, 'delegate_pubkey': V.rbytes(rng, 32)}[field_]
+                setattr(c, field_, newv)
+                back2 = T.Certificate.unpack(c.pack())
+                if getattr(back2, field_) != newv:
+                    B.viol(f'Certificate: {field_} assigned after the certificate had been serialised once; packed again', {'delegate': dk.hex(), 'begin': b, 'end': e, 'may': may, 'assigned': str(newv) if not isinstance(newv, bytes) else newv.hex()}, str(newv) if not isinstance(newv, bytes) else newv.hex(), str(getattr(back2, field_)))
+            except BaseException as ex:
+                if isinstance(ex, (KeyboardInterrupt, SystemExit)): raise
+                B.viol('Certificate re-pack after a field assignment raised', {'delegate': dk.hex(), 'begin': b, 'end': e, 'may': may}, 'round trip', type(ex).__name__)
         B.build(f'BUILD2 cert_unpack {packed.hex()}', f'{dk.hex()} {b} {e} {1 if may else 0} {sig.hex()}')
     maxlen = ctx.n(4, 6)
     for it in range(ctx.n(30, 300)):
